@@ -72,6 +72,7 @@ func init() {
 	modelTable["fmt.Print"] = nop2
 	modelTable["fmt.Fprintf"] = nop2
 	modelTable["fmt.Fprintln"] = nop2
+	modelTable["fmt.Fprint"] = nop2
 	modelTable["strings.TrimSpace"] = strUF("strings.TrimSpace", true)
 	modelTable["strings.ToLower"] = strUF("strings.ToLower", false)
 	modelTable["strings.Trim"] = strUF2("strings.Trim")
@@ -80,6 +81,22 @@ func init() {
 	modelTable["strings.TrimPrefix"] = strUF2("strings.TrimPrefix")
 	modelTable["strings.TrimSuffix"] = strUF2("strings.TrimSuffix")
 	modelTable["strings.ToUpper"] = strUF("strings.ToUpper", false)
+	modelTable["strings.Repeat"] = func(e *Engine, st *State, fr *Frame, callee *ssa.Function, args []Val, at ssa.Instruction) []Val {
+		// strings.Repeat panics on a negative count: a safety obligation of the caller
+		a, n := args[0][0], args[1][0]
+		e.oblige(st, e.safetyName("negative-repeat-count"), "safety", at.Pos(), Le(IntC(0), n))
+		if av, ok := strOf(a); ok {
+			if c, ok := st.norm(n).ConstInt(); ok && c >= 0 && c <= 64 {
+				return []Val{{internStr(strings.Repeat(av, int(c)))}}
+			}
+		}
+		r := App(smtName("strings.Repeat"), SInt, a, n)
+		e.fact(st, Le(IntC(0), r))
+		if av, ok := strOf(a); ok {
+			e.fact(st, Eq(strLen(r), Mul(IntC(int64(len(av))), n)))
+		}
+		return []Val{{r}}
+	}
 	modelTable["path/filepath.ToSlash"] = toSlash
 	initStrconvModels()
 	initBuilderModels()
